@@ -50,6 +50,7 @@ type keysStats struct {
 	Cases, DistinctNontrivial int
 	WfCases, RecreateCases    int
 	BigCases                  int // cases with more ids than the cache holds
+	Outages                   int // creations refused by a datastore outage
 	LRUProbes                 int // cases ending with the re-create-all / read-back probe of the LRU state
 	OpHist                    map[string]int
 	KeystoresHist             map[int]int
@@ -69,13 +70,14 @@ func hx0(b []byte) string {
 }
 
 type keysWorld struct {
-	ctx   context.Context
-	r     *rand.Rand
-	out   *bufio.Writer
-	st    *keysStats
-	store ds.Datastore
-	ks    []*keystore.Keystore
-	api   *mockstore.API
+	ctx     context.Context
+	r       *rand.Rand
+	out     *bufio.Writer
+	st      *keysStats
+	store   ds.Datastore
+	failPut bool
+	ks      []*keystore.Keystore
+	api     *mockstore.API
 
 	named    map[string]bool // N line written
 	pubSeen  map[string]bool // P line written
@@ -153,6 +155,45 @@ func (w *keysWorld) guard(what string, f func()) {
 func (w *keysWorld) op(kind string, ks int, id string) {
 	w.st.OpHist[kind]++
 	w.sig = append(w.sig, []byte(fmt.Sprintf("%s/%d/%s;", kind, ks, id))...)
+}
+
+// failDS refuses writes while *fail is set (a datastore outage); everything else goes through
+type failDS struct {
+	ds.Datastore
+	fail *bool
+}
+
+func (f *failDS) Put(ctx context.Context, k ds.Key, v []byte) error {
+	if *f.fail {
+		return fmt.Errorf("verif datastore: write refused")
+	}
+	return f.Datastore.Put(ctx, k, v)
+}
+
+// doCreateFail: CreateKey of a fresh id during a datastore outage.  It must fail and the id must stay "never
+// created" for every keystore, this one included: it is read back at once through the same keystore.
+func (w *keysWorld) doCreateFail(ks int, id string) {
+	w.op("create-outage", ks, id)
+	idh := w.name(id)
+	failed := false
+	w.guard("create-outage", func() {
+		w.failPut = true
+		_, err := w.ks[ks].CreateKey(w.ctx, id)
+		w.failPut = false
+		if err != nil {
+			failed = true
+			fmt.Fprintf(w.out, "KF %d %s\n", ks, idh)
+			return
+		}
+		// acknowledged although nothing could be written: reported as a creation the store does not hold
+		fmt.Fprintf(w.out, "KF %d %s acknowledged\n", ks, idh)
+	})
+	w.failPut = false
+	if failed {
+		w.st.Outages++
+	}
+	w.doHas(ks, id, "has-never")
+	w.doGet(ks, id, "get-never")
 }
 
 func (w *keysWorld) doCreate(ks int, id string, kind string) {
@@ -434,9 +475,10 @@ func runKeys(seed int64, n int, nOps int, out *bufio.Writer, thorough bool) *key
 			ops = nIDs * 3
 		}
 		w := &keysWorld{ctx: context.Background(), r: r, out: out, st: st,
-			store: dssync.MutexWrap(ds.NewMapDatastore()), api: mockstore.New(),
+			api:   mockstore.New(),
 			named: map[string]bool{}, pubSeen: map[string]bool{}, creator: map[string]int{}, createNo: map[string]int{},
 			perKS: make([]int, nks), idents: map[string]*idp.Identity{}}
+		w.store = &failDS{Datastore: dssync.MutexWrap(ds.NewMapDatastore()), fail: &w.failPut}
 		for i := 0; i < nks; i++ {
 			k, err := keystore.NewKeystore(w.store)
 			if err != nil {
@@ -476,6 +518,9 @@ func runKeys(seed int64, n int, nOps int, out *bufio.Writer, thorough bool) *key
 				if id, ok := w.existingID(); ok {
 					w.doHas(r.Intn(nks), id, "has")
 				}
+			case c < 66:
+				// a creation that meets a datastore outage
+				w.doCreateFail(r.Intn(nks), w.neverID())
 			case c < 70:
 				w.doHas(r.Intn(nks), w.neverID(), "has-never")
 			case c < 74:
